@@ -631,6 +631,42 @@ class CoordMatcher(WrappingMatcher):
     def block_quality(self):
         return self._sqr(self.child.block_quality(), self._termcount)
 
+    def _child_threshold(self, minquality):
+        # The child quality above which the coordinated score can exceed
+        # minquality (the inverse of _sqr with every term matching); None if
+        # the coordinated score is always 0
+        termcount = self._termcount
+        scale = self._scale
+        if termcount <= 1 or termcount == scale:
+            return None
+        return (minquality * termcount / (termcount - 1.0)
+                - (termcount - 1.0) / (termcount - scale) ** 2)
+
+    def skip_to_quality(self, minquality):
+        threshold = self._child_threshold(minquality)
+        if threshold is None:
+            # Every posting scores 0
+            skipped = 0
+            if minquality >= 0:
+                while self.child.is_active():
+                    self.child.next()
+                    skipped += 1
+            return skipped
+        return self.child.skip_to_quality(threshold)
+
+    def replace(self, minquality=0):
+        threshold = self._child_threshold(minquality) if minquality else 0
+        if threshold is None:
+            if minquality > 0:
+                # Every posting scores 0, which is not more than minquality
+                return mcore.NullMatcher()
+            threshold = 0
+        r = self.child.replace(max(threshold, 0))
+        if r is not self.child:
+            return self._replacement(r)
+        else:
+            return self
+
     def score(self):
         child = self.child
 
